@@ -12,7 +12,11 @@
         for all expression trees over an abstract evaluation of the leaf operators, and `xeval`, its
         executable instance whose leaf rules are computed from the class and the type/shape of its
         array parameter (scalar value, diagonal values, band values, rotation angles);
-     4. the property's guards as booleans: `params_not_wider` and `dtypes_available`. *)
+     4. the property's guards as booleans: `params_not_wider` and `dtypes_available`;
+     5. the shape arithmetic of BroadcastDiagonalOperator._reshape_leaves (`diag_leaf_shape`: destination
+        axes at / beyond the leaf rank on both sides, negative axes, unit and extra axes of the values),
+        the constructors built on it (`diag_ctor`: what DiagonalOperator / BroadcastDiagonalOperator accept
+        and what they return) and `ctor_checked`: the checks those constructors made on an existing object. *)
 From Coq Require Import List Bool Arith ZArith NArith QArith String Lia.
 From Furax Require Import Base.Pytree Model.Op Model.Algebra Model.Denote Model.Wf.
 From Furax Require Model.StokesTree.
@@ -225,7 +229,8 @@ End SEval.
 
 (* ---------- 5. executable leaf rules ---------- *)
 (* type (dtype, weak flag) and shape of the array parameter of an operator object *)
-Record pinfo := mkPinfo { pi_ty : ty; pi_shape : list nat }.
+(* ... and, for the diagonal classes, the static field axis_destination (empty otherwise) *)
+Record pinfo := mkPinfo { pi_ty : ty; pi_shape : list nat; pi_axes : list Z }.
 Definition infos := list (N * pinfo).
 Fixpoint ilookup (t : infos) (k : N) : option pinfo :=
   match t with
@@ -324,6 +329,101 @@ Definition sd_int (sd : sds) : bool := match sd_dt sd with Some d => ST.is_int d
 Definition lt_ok (a b : struct) : bool :=
   forallb sd_inexact (flatten a ++ flatten b) || forallb sd_int (flatten a ++ flatten b).
 
+
+(* ---------- DiagonalOperator / BroadcastDiagonalOperator: _reshape_leaves on shapes ---------- *)
+(* _normalize_axes: axis if axis >= 0 else ndim + axis (the result may still be negative) *)
+Definition norm_axis (n : nat) (a : Z) : Z := if (0 <=? a)%Z then a else (Z.of_nat n + a)%Z.
+Fixpoint zmem (a : Z) (l : list Z) : bool :=
+  match l with [] => false | b :: r => (a =? b)%Z || zmem a r end.
+Fixpoint has_dup (l : list Z) : bool :=
+  match l with [] => false | a :: r => zmem a r || has_dup r end.
+Definition zmin0 (l : list Z) : Z := fold_right Z.min 0%Z l.        (* min(0, min(l)) *)
+Definition zmax_list (l : list Z) : Z := match l with [] => 0%Z | a :: r => fold_right Z.max a r end.
+Fixpoint find_dest (p : nat) (dests vals : list nat) : option nat :=
+  match dests, vals with
+  | d :: ds, v :: vs => if Nat.eqb d p then Some v else find_dest p ds vs
+  | _, _ => None
+  end.
+(* jnp.moveaxis(a, range(k), dests) on the shape: the first k dimensions go to `dests`, the others
+   fill the remaining positions in their order *)
+Fixpoint place (p cnt : nat) (dests moved rest : list nat) : list nat :=
+  match cnt with
+  | 0 => []
+  | S c =>
+      match find_dest p dests moved with
+      | Some v => v :: place (S p) c dests moved rest
+      | None => match rest with
+                | x :: r => x :: place (S p) c dests moved r
+                | [] => 1 :: place (S p) c dests moved []
+                end
+      end
+  end.
+Definition moveaxis_front (sh dests : list nat) : list nat :=
+  let k := List.length dests in place 0 (List.length sh) dests (firstn k sh) (skipn k sh).
+
+(* shape of reshaped_diagonal * reshaped_input_leaf for values of shape dsh sent to the destination axes
+   `axes` of a leaf of shape lsh; None: ValueError (duplicated axes, shapes that do not broadcast).
+     left  = -min(0, min axes)          unit axes the values need BEFORE the first axis of the leaf
+     right = max(0, max axes - ndim + 1) unit axes APPENDED to the leaf to reach the destination axes
+   the values are padded with unit axes up to left + right + ndim dimensions, their own axes moved to
+   axes + left; the leaf becomes lsh + (1,) * right; NumPy broadcasting prepends the left axes *)
+Definition diag_leaf_shape (dsh : list nat) (axes : list Z) (lsh : list nat) : option (list nat) :=
+  let n := List.length lsh in
+  let ax := map (norm_axis n) axes in
+  match ax with
+  | [] => None
+  | _ =>
+      if has_dup ax then None else
+      let left := (- zmin0 ax)%Z in
+      let right := Z.max 0 (zmax_list ax - Z.of_nat n + 1)%Z in
+      let m := Z.to_nat (left + right) + n in
+      let padded := dsh ++ repeat 1 (m - List.length dsh) in
+      let dests := map (fun a => Z.to_nat (a + left)) ax in
+      if (List.length dests <=? List.length padded) && forallb (fun d => d <? List.length padded) dests then
+        ST.bshape (moveaxis_front padded dests) (lsh ++ repeat 1 (Z.to_nat right))
+      else None
+  end.
+
+(* the constructor argument axis_destination: an int n >= 0 means (n, ..., n + ndim - 1), an int n < 0
+   means (n - ndim + 1, ..., n), a sequence is taken as it is *)
+Inductive axspec := AxInt (a : Z) | AxSeq (l : list Z).
+Definition spec_axes (s : axspec) (nd : nat) : list Z :=
+  match s with
+  | AxInt a => if (0 <=? a)%Z then map (fun j => (a + Z.of_nat j)%Z) (seq 0 nd)
+               else map (fun j => (a - Z.of_nat nd + 1 + Z.of_nat j)%Z) (seq 0 nd)
+  | AxSeq l => l
+  end.
+(* DiagonalOperator._check_leaf_shapes (strict): the product must have the shape of the DECLARED leaf;
+   BroadcastDiagonalOperator: it only has to exist *)
+Definition diag_leaf_checked (strict : bool) (dsh : list nat) (axes : list Z) (lsh : list nat) : option (list nat) :=
+  match diag_leaf_shape dsh axes lsh with
+  | Some r => if strict && negb (list_eqb Nat.eqb r lsh) then None else Some r
+  | None => None
+  end.
+(* the constructors on (shape of the values, axis_destination, shapes of the input leaves):
+   None = ValueError, Some (normalised axes, shapes of the leaves mv returns) *)
+Definition diag_ctor (strict : bool) (dsh : list nat) (s : axspec) (leaves : list (list nat))
+  : option (list Z * list (list nat)) :=
+  match dsh with
+  | [] => None      (* scalar values: "Use HomothetyOperator instead" *)
+  | _ =>
+      let axes := spec_axes s (List.length dsh) in
+      option_map (fun outs => (axes, outs)) (ST.all_some (map (diag_leaf_checked strict dsh axes) leaves))
+  end.
+
+(* values of type (pi_ty p), shape (pi_shape p), destination axes (pi_axes p) times one leaf *)
+Definition diag_leaf (x64 : bool) (p : pinfo) (sd : sds) : option sds :=
+  match sd_ty sd, diag_leaf_shape (pi_shape p) (pi_axes p) (s_shape sd) with
+  | Some u, Some sh => Some (mkSds sh (id_of_dt (ST.tdt (ST.promote2 x64 (pi_ty p) u))))
+  | _, _ => None
+  end.
+(* what DiagonalOperator.__init__ checked on every leaf of its input structure *)
+Definition diag_ok (p : pinfo) (s : struct) : bool :=
+  forallb (fun sd => match diag_leaf_shape (pi_shape p) (pi_axes p) (s_shape sd) with
+                     | Some r => list_eqb Nat.eqb r (s_shape sd)
+                     | None => false
+                     end) (flatten s).
+
 Section XEval.
   Variable K : Type.
   Variable x64 : bool.
@@ -336,12 +436,9 @@ Section XEval.
     | CQURotation => match ilookup info i with Some p => rot_eval x64 p s | None => None end
     | CHWP => if is_stokes s then Some s else None
     | CLinearPolarizer => pol_eval x64 s
-    | CDiagonal =>
-        (* the constructor has checked that the values broadcast to every leaf shape of si *)
-        match ilookup info i with
-        | Some p => if same_shapes s si then pmapo (sd_mul x64 (pi_ty p)) s else None
-        | None => None
-        end
+    | CDiagonal | CBroadcastDiagonal =>
+        (* jax.tree.map(reshaped values * reshaped leaf): shapes from the values' shape and destination axes *)
+        match ilookup info i with Some p => pmapo (diag_leaf x64 p) s | None => None end
     | CToeplitz => match ilookup info i with Some p => toep_eval x64 p s | None => None end
     | _ =>
         (* default out_structure(): the declared structure IS the abstract evaluation at si *)
@@ -361,10 +458,8 @@ Section XEval.
             | _ => None
             end
         | WDiagInv =>
-            match ilookup info i with
-            | Some p => if same_shapes s (in_struct x) then pmapo (sd_mul x64 (pi_ty p)) s else None
-            | None => None
-            end
+            (* DiagonalInverseOperator IS a DiagonalOperator (values 1/d, same destination axes) *)
+            match ilookup info i with Some p => pmapo (diag_leaf x64 p) s | None => None end
         | WReshapeT => reshape_to s (in_struct x)
         | WTranspose | WObsT =>
             (* jax.linear_transpose: the argument must have the structure the wrapped operator really
@@ -492,11 +587,38 @@ Section XEval.
     | Ident _ _ => true
     | Comp _ l | AddOp _ l | Block _ _ _ l => forallb params_not_wider l
     end.
+
+  (* ---------- what the constructors checked ---------- *)
+  (* `ctor_checked`: the object exists, so its constructor accepted it.  DiagonalOperator (and the
+     DiagonalInverseOperator built from it): on every leaf of the input structure the product of the
+     reshaped values and the reshaped leaf has the shape of the DECLARED leaf (`diag_ok`);
+     BroadcastDiagonalOperator: the default out_structure() traced this very mv (the Prim term carries it). *)
+  Fixpoint ctor_checked (e : op) : bool :=
+    match e with
+    | Prim i c si so _ =>
+        match c with
+        | CDiagonal => match ilookup info i with Some p => diag_ok p si | None => false end
+        | CBroadcastDiagonal =>
+            match ilookup info i with
+            | Some p => match pmapo (diag_leaf x64 p) si with Some s' => struct_eqb s' so | None => false end
+            | None => false
+            end
+        | _ => true
+        end
+    | Wrap i w x =>
+        ctor_checked x &&
+        match w with
+        | WDiagInv => match ilookup info i with Some p => diag_ok p (in_struct x) | None => false end
+        | _ => true
+        end
+    | Ident _ _ | Homoth _ _ _ => true
+    | Comp _ l | AddOp _ l | Block _ _ _ l => forallb ctor_checked l
+    end.
 End XEval.
 
 (* observations for the correspondence harness *)
 Definition c05_obs (K : Type) (x64 : bool) (info : infos) (e : op K) :=
-  (wfo e, params_not_wider x64 info e, dtypes_available x64 e,
+  (wfo e, params_not_wider x64 info e, dtypes_available x64 e, ctor_checked x64 info e,
    (in_size e, out_size e),
    (option_map (fun t => id_of_dt (ST.tdt t)) (promoted x64 (in_struct e)),
     option_map (fun t => id_of_dt (ST.tdt t)) (promoted x64 (out_struct e)))).
